@@ -61,6 +61,9 @@ type appCase struct {
 	// the source falls silent for SilenceMs after this many chunks have been written
 	SilenceAfterChunks int `json:"silence_after_chunks,omitempty"`
 	SilenceMs          int `json:"silence_ms,omitempty"`
+	// the pipe the program inherits as its standard input is in non-blocking mode (as
+	// when it is started by another Go program or by a supervisor that uses one)
+	StdinNonblock bool `json:"stdin_nonblocking,omitempty"`
 }
 
 type appObs struct {
@@ -280,6 +283,9 @@ func runAppProcess(c *child.Ctx, bin string, args []string, stdin []byte, k appC
 		defer f.Close()
 	} else {
 		inR, inW, _ = os.Pipe()
+		if k.StdinNonblock {
+			syscall.SetNonblock(int(inR.Fd()), true)
+		}
 		cmd.Stdin = inR
 	}
 	if err := cmd.Start(); err != nil {
